@@ -12,6 +12,10 @@ NA = {
  "C16": "decision lives in methods of ContentPackCreator which cannot be constructed without spawning threads; detect branch is floating point; dedup adder is HashMap<blake3::Hash,_> (DESIGN.md section 5)",
 }
 TEXT = {
+ "C05": ("Bounded model checking of (1) the real table-driven CRC code against a bitwise CRC-32C reference over all blocks of 1-2 (thorough: 4) data bytes, (2) the real writer (Serializer::close / write_serializer) producing exactly that checksum in big endian after the data, (3) single-byte alterations never accepted, and (4) every block-reading entry point of Reader / ArrayReader / ValueStore run with a checksum oracle that records the range it is asked about: Ok only if exactly [offset, offset+size+4) was verified and accepted, rejection surfaces as Corrupted. Removing a verification or checking the wrong range changes no test outcome but fails (4); a parameter change of the CRC fails (1)/(2).",
+         "4 C05", "Kani/CBMC; memory source stands for the file source; block lengths bounded as stated; oracle stub is used only in the site harnesses"),
+ "C14": ("Differential bounded model checking against a reference codec written in the harness from the pinned layout: the real primitive writers/readers (u8..u64, usized/isized of every width, data) equal little-endian reference encode/decode; every header structure (PackHeader with its version gate, content/directory/manifest/container headers, PackLocator, SizedOffset, CheckInfo, plus cluster tail, index tail, value-store tails and property definitions in C01/C02) is checked in both directions (writer field sequence == layout, reader(reference bytes) == fields) with all field values symbolic, so a change applied symmetrically to writer and reader is caught.",
+         "4 C14", "Kani/CBMC; the reference encodings are part of the trusted base (a few lines each, transcribed from the pinned code and spec); reference corpus of old files is outside"),
  "C02": ("Bounded model checking of the real per-column machinery on both sides: column width selection (PropertySize/ValueCounter/needed_bytes) under a truncation monitor on the real entry serialiser with every value symbolic; the sequence of primitive writes of the real serialize_entry and layout::Property::serialize compared with the pinned layout for all widths at once (ghost log); the real reader builders (IntProperty, SignedProperty, ContentProperty, ArrayProperty, VariantIdProperty, AnyProperty) and RawProperty::parse against an independent little-endian reference decode on symbolic entry bytes; real value stores (creator tail/data layout from a constructed finalized state, reader parse + get_data from reference bytes); index window arithmetic; variant padding; tail size representability. The solver decides every value inside each stated bound, which is where width boundaries, sign handling and nibble packing go wrong.",
          "4 C02", "Kani/CBMC; per-column and per-property kernels: whole-schema assembly (Schema::finalize, Layout::parse, ValueTransformer: HashMap) and the rayon sorts are outside and enter as stated invariants; primitive writes are abstracted by a ghost log (their byte-level behaviour is C14's obligation); Serializer::close without CRC and accepting CRC oracle (C05 covers CRC); from_utf8 accepted for concrete ASCII names"),
  "C01": ("Bounded model checking of the real cluster bookkeeping and cluster tail code on both sides: one inductive step of ClusterCreator from any valid state (blob counts 0,1,2,4094,4095), ContentInfo 20/12 packing, a truncation monitor over the real serialize_cluster_tail with every offset and the stored size symbolic, writer bytes == an independent reference encoding and reader(reference encoding) == fields for each width, and blob extraction from a cluster placed at a non-zero position with symbolic data and offsets. All values inside each bound are decided by the solver; the rare inputs (width boundaries, codec expansion, 4095th blob) are exactly what it finds.",
